@@ -80,3 +80,17 @@ func itoa64(n int64) string {
 }
 
 func noLimit() int64 { return -1 }
+
+func runShell(dir, script string) int {
+	cmd := exec.Command("/bin/sh", "-c", script)
+	cmd.Dir = dir
+	cmd.Env = []string{"PATH=/usr/bin:/bin", "HOME=/nonexistent"}
+	cmd.SysProcAttr = &syscall.SysProcAttr{Setsid: true}
+	if err := cmd.Run(); err != nil {
+		if ee, ok := err.(*exec.ExitError); ok {
+			return ee.ExitCode()
+		}
+		return -2
+	}
+	return 0
+}
